@@ -85,6 +85,16 @@ impl Out {
         }
     }
 
+    /// like `check`, for monitors whose replay line is expensive to build
+    pub fn check_with(&mut self, ok: bool, detail: impl FnOnce() -> String, line: impl FnOnce() -> String) {
+        if ok {
+            self.monitor_checks += 1;
+        } else {
+            let l = line();
+            self.check(false, detail, &l);
+        }
+    }
+
     pub fn finish(mut self) {
         let hist: Vec<String> = self
             .hist
